@@ -197,6 +197,20 @@ func drvStd(pairs bool) [][]Action {
 					{A: "Add", Tree: varQ(ps[1], st.sym(ps[1]))}, {A: "Render"}})
 			}
 		}
+		// a names table (ImportNames) that lists the toolchain's names for all packages of this name and a few others,
+		// then the packages are used in both orders
+		if len(ps) >= 2 {
+			table := map[string]string{"fmt": "fmt", "os": "os", "example.com/x/other": "other"}
+			for _, p := range ps {
+				table[p] = n
+			}
+			for k := 0; k < 2; k++ {
+				st := &symtab{}
+				a, b := ps[k%len(ps)], ps[(k+1)%len(ps)]
+				out = append(out, []Action{newAct("", ""), {A: "ImportNames", M: table}, {A: "Add", Tree: varQ(a, st.sym(a))}, {A: "Add", Tree: varQ(b, st.sym(b))},
+					{A: "Add", Tree: varQ("fmt", st.sym("fmt"))}, {A: "Render"}})
+			}
+		}
 		// each with a same-named third-party path, both orders, prefix on/off
 		third := "example.com/x/" + n
 		for _, pfx := range []string{"", "pkg"} {
@@ -560,7 +574,7 @@ func drvCgo(r *rand.Rand, n int) [][]Action {
 
 // header / package comment lists of length 0-3 over text classes, canonical paths incl. quotes and backslashes
 func drvFileComments(r *rand.Rand, n int) [][]Action {
-	texts := []string{"Code generated by x. DO NOT EDIT.", "Package main does things.", "two\nlines", "ends with newline\n", "has } braces {", "x := 1 // nested",
+	texts := []string{"Code generated by x. DO NOT EDIT.", "Package main does things.", "two\nlines", "Package main has paragraphs.\n\nThis is the second one.", "one\n\ntwo\n\nthree", "ends with newline\n", "has } braces {", "x := 1 // nested",
 		"unicode é 日本", "  indented", "Copyright 2024", "a \"quoted\" word", "//raw line comment", "/* raw block */", "#hash"}
 	canons := []string{"", "", "example.com/canon", "a/b-c.d/e", "with \"quote\"", "back\\slash", "ünï/cødé"}
 	out := [][]Action{}
